@@ -94,22 +94,26 @@ func ReadString16Length(buf *ByteBuffer) string {
 
 func ReadString32Length(buf *ByteBuffer) string {
 	length, _ := buf.ReadUint32()
-	if length > 0 {
-		p := make([]byte, length)
-		buf.Read(p)
-		return string(p)
-	}
-	return ""
+	return readDeclared(buf, uint64(length))
 }
 
 func ReadString64Length(buf *ByteBuffer) string {
 	length, _ := buf.ReadUint64()
-	if length > 0 {
-		p := make([]byte, length)
-		buf.Read(p)
-		return string(p)
+	return readDeclared(buf, length)
+}
+
+// readDeclared reads a string whose length a prefix declared. The prefix of a malformed message can declare up to
+// 4 GiB (or 16 EiB): no more is allocated than the bytes that are there.
+func readDeclared(buf *ByteBuffer, length uint64) string {
+	if length == 0 {
+		return ""
 	}
-	return ""
+	if available := uint64(len(buf.Bytes())); length > available {
+		length = available
+	}
+	p := make([]byte, length)
+	buf.Read(p)
+	return string(p)
 }
 
 func WriteString8Length(value string, buf *ByteBuffer) {
